@@ -733,6 +733,25 @@ func SexpToGoStructs(
 	}
 
 	//vv("sexp = '%v'/Ty=%T", sexp, sexp)
+	// a scalar going into an interface{}-typed slot (an element of a
+	// map[string]interface{}, for instance) is stored as the plain Go value.
+	if targElemKind == reflect.Interface && targElemTyp.NumMethod() == 0 {
+		switch src := sexp.(type) {
+		case *SexpInt:
+			targVa.Elem().Set(reflect.ValueOf(src.Val))
+			return target, nil
+		case *SexpFloat:
+			targVa.Elem().Set(reflect.ValueOf(src.Val))
+			return target, nil
+		case *SexpStr:
+			targVa.Elem().Set(reflect.ValueOf(src.S))
+			return target, nil
+		case *SexpBool:
+			targVa.Elem().Set(reflect.ValueOf(src.Val))
+			return target, nil
+		}
+	}
+
 	switch src := sexp.(type) {
 	case *SexpRaw:
 		targVa.Elem().Set(reflect.ValueOf([]byte(src.Val)))
